@@ -48,10 +48,7 @@ struct DefaultGetEvent
 {
 	template <typename U, typename ...Args>
 	static E getEvent(U && e, Args && ...) {
-		// Never move from e, even if U is an rvalue reference (which would be an implicit
-		// move on return in C++20): the caller still uses the argument after getting the event.
-		const typename std::remove_reference<U>::type & ref = e;
-		return ref;
+		return e;
 	}
 };
 template <typename T, typename Key, bool> struct SelectGetEvent { using Type = T; };
@@ -179,14 +176,6 @@ struct ForEachMixins <Root, MixinList<>, Func>
 	}
 };
 
-// T is one level of the mixin hierarchy, it inherits from all the mixins listed after it.
-// A mixinBeforeDispatch that T only inherits belongs to a later mixin and is called when
-// that mixin is visited, so it must not be called for T too.
-template <typename T, typename Owner, typename R, typename ...P>
-std::is_same<T, Owner> doesMixinDeclareFunction(R (Owner::*)(P...) const);
-template <typename T, typename Owner, typename R, typename ...P>
-std::is_same<T, Owner> doesMixinDeclareFunction(R (Owner::*)(P...));
-
 template <typename T, typename ...Args>
 struct HasFunctionMixinBeforeDispatch
 {
@@ -195,15 +184,7 @@ struct HasFunctionMixinBeforeDispatch
 	);
 	template <typename C> static std::false_type test(...);    
 
-	// The class a pointer to the member function belongs to is the class that declares it.
-	// If the pointer can't be taken (overloaded function), assume T declares it.
-	template <typename C> static auto declared(int)
-		-> decltype(doesMixinDeclareFunction<C>(&C::template mixinBeforeDispatch<Args...>));
-	template <typename C> static auto declared(long)
-		-> decltype(doesMixinDeclareFunction<C>(&C::mixinBeforeDispatch));
-	template <typename C> static std::true_type declared(...);
-
-	enum { value = (!! decltype(test<T>(0))()) && (!! decltype(declared<T>(0))()) };
+	enum { value = !! decltype(test<T>(0))() };
 };
 
 
